@@ -76,17 +76,18 @@ def member_xml(m):
            '<name>%s</name>%s%s%s</memberdef>' % (m['name'], xtext(argsstring), m['name'], ps, brief, detailed)
 
 
-def write_xml(folder, classes, index=True, broken=(), missing_file=()):
-    """classes: {cpp name: [members]}"""
+def write_xml(folder, classes, index=True, broken=(), missing_file=(), structs=()):
+    """classes: {cpp name: [members]}; names in `structs` are emitted as Doxygen does for a C++ struct"""
     os.makedirs(folder, exist_ok=True)
     idx = '<?xml version="1.0" encoding="UTF-8"?>\n<doxygenindex>'
     for cpp, members in classes.items():
-        refid = 'class' + cpp.replace('::', '_1_1')
-        idx += '<compound refid="%s" kind="class"><name>%s</name></compound>' % (refid, cpp)
+        ckind = 'struct' if cpp in structs else 'class'
+        refid = ckind + cpp.replace('::', '_1_1')
+        idx += '<compound refid="%s" kind="%s"><name>%s</name></compound>' % (refid, ckind, cpp)
         if cpp in missing_file:
             continue
-        body = '<?xml version="1.0" encoding="UTF-8"?>\n<doxygen><compounddef id="%s" kind="class"><compoundname>%s</compoundname>' \
-               '<sectiondef kind="public-func">%s</sectiondef></compounddef></doxygen>' % (refid, cpp, ''.join(member_xml(m) for m in members))
+        body = '<?xml version="1.0" encoding="UTF-8"?>\n<doxygen><compounddef id="%s" kind="%s"><compoundname>%s</compoundname>' \
+               '<sectiondef kind="public-func">%s</sectiondef></compounddef></doxygen>' % (refid, ckind, cpp, ''.join(member_xml(m) for m in members))
         if cpp in broken:
             body = body[:len(body) // 2]
         with open(os.path.join(folder, refid + '.xml'), 'w', encoding='utf-8') as f:
@@ -342,13 +343,29 @@ def check_matching(case):
                     m.update({'brief': 'BRIEF-%s' % mark})
                 xmlm.append(m)
             expect.append((name, [n for _, n, _ in params], mark if kind in ('full', 'brief') else None))
-        mod = [D.ns('gt', [D.cls('Foo', members), D.cls('NotIndexed', [D.method(single(I), 'plain', [arg(I, 'a')])]),
+        # an overload set in which one C++ member has optional parameters and another has exactly the arity in between
+        members += [D.method(single(I), 'rng', [arg(I, 'rows'), arg(I, 'cols')]), D.method(single(I), 'rng', [arg(I, 'rows')]),
+                    D.method(single(I), 'rng', [arg(I, 'rows'), arg(I, 'cols'), arg(I, 'depth')])]
+        pa = [('int', 'rows', None), ('int', 'cols', '1'), ('int', 'depth', '1')]
+        pb = [('int', 'rows', None), ('int', 'cols', None)]
+        xmlm += [dict({'name': 'rng', 'params': pa}, **doc('K90K', pdocs={n: 'PD-K90K-%s' % n for _, n, _ in pa})),
+                 dict({'name': 'rng', 'params': pb}, **doc('K91K', pdocs={n: 'PD-K91K-%s' % n for _, n, _ in pb}))]
+        # (methods are bound before static methods)
+        expect[-1:-1] = [('rng', ['rows', 'cols'], 'K91K'), ('rng', ['rows'], 'K90K'), ('rng', ['rows', 'cols', 'depth'], 'K90K')]
+        # a second documented type, which Doxygen lists as a struct, with overloads spelled like those of Foo
+        smembers = [D.method(single(I), 'plain', [arg(I, 'a')]), D.method(single(I), 'same', [arg(I, 'v')]),
+                    D.method(single(I), 'same', [arg(T('double'), 'v')])]
+        sxml = [dict({'name': 'plain', 'params': [('int', 'a', None)]}, **doc('K80K')),
+                dict({'name': 'same', 'params': [('int', 'v', None)]}, **doc('K81K')),
+                dict({'name': 'same', 'params': [('double', 'v', None)]}, **doc('K82K'))]
+        sexpect = [('plain', ['a'], 'K80K'), ('same', ['v'], 'K81K'), ('same', ['v'], 'K82K')]
+        mod = [D.ns('gt', [D.cls('Foo', members), D.cls('Sfoo', smembers), D.cls('NotIndexed', [D.method(single(I), 'plain', [arg(I, 'a')])]),
                            D.cls('NoFile', [D.method(single(I), 'plain', [arg(I, 'a')])]),
                            D.cls('Broken', [D.method(single(I), 'plain', [arg(I, 'a')])])])]
         text = D.render(mod)
         xml = os.path.join(wd, 'xml')
-        write_xml(xml, {'gt::Foo': xmlm, 'gt::NoFile': [], 'gt::Broken': [{'name': 'plain', 'params': [('int', 'a', None)], 'brief': 'BRIEF-X'}]},
-                  broken=('gt::Broken',), missing_file=('gt::NoFile',))
+        write_xml(xml, {'gt::Foo': xmlm, 'gt::Sfoo': sxml, 'gt::NoFile': [], 'gt::Broken': [{'name': 'plain', 'params': [('int', 'a', None)], 'brief': 'BRIEF-X'}]},
+                  broken=('gt::Broken',), missing_file=('gt::NoFile',), structs=('gt::Sfoo',))
         variants = {'full': xml}
         noidx = os.path.join(wd, 'noindex')
         write_xml(noidx, {'gt::Foo': xmlm}, index=False)
@@ -381,8 +398,16 @@ def check_matching(case):
                     if set(allmarks) != {want}:
                         viol.append({'sig': 'C17|matching|wrong-member-doc|%s' % py,
                                      'msg': '%s(%s) should carry the documentation %s, literal is "%s"' % (py, names, want, lit)})
+            sfoo = [(py, names, lit) for cpp, py, names, lit in lits if cpp == 'gt::Sfoo']
+            if vname == 'full':
+                if [(p, n) for p, n, _ in sfoo] != [(p, n) for p, n, _ in sexpect]:
+                    viol.append({'sig': 'C17|matching|bindings-changed|struct', 'msg': 'bindings %r' % sfoo})
+                for (py, names, lit), (_, _, mark) in zip(sfoo, sexpect):
+                    if set(re.findall(r'K\d+K', lit if isinstance(lit, str) else '')) != {mark}:
+                        viol.append({'sig': 'C17|matching|wrong-member-doc|struct-%s' % py,
+                                     'msg': 'gt::Sfoo (a Doxygen struct compound) %s(%s) should carry the documentation %s, literal is "%s"' % (py, names, mark, lit)})
             for cpp, py, names, lit in lits:
-                if cpp != 'gt::Foo' and lit not in ('', None):
+                if cpp not in ('gt::Foo', 'gt::Sfoo' if vname == 'full' else 'gt::Foo') and lit not in ('', None):
                     viol.append({'sig': 'C17|matching|docstring-for-undocumented-class|%s' % cpp, 'msg': '%s.%s has "%s"' % (cpp, py, lit)})
             if strip_literals(out) != gen.pybind(text):
                 viol.append({'sig': 'C17|matching|output-differs-beyond-literals|%s' % vname, 'msg': 'output changed beyond the literals'})
@@ -431,11 +456,11 @@ def run(ctx):
     res = ctx.map(check_texts, cases, chunksize=1)
     res2 = ctx.map(check_matching, [{'mode': 'matching'}], chunksize=1)
     return {
-        'evaluations': len(tx) + 12 * 3 + 1,
-        'distinct_nontrivial': len(tx) + 12,
+        'evaluations': len(tx) + 19 * 3 + 1,
+        'distinct_nontrivial': len(tx) + 19,
         'rule': 'every documentation text of length <= %d over %d escaping-class representatives (each the docstring of its own '
-                'method; literal decoded by an independent decoder and by g++); 12 member shapes (overloads by names / by order, '
-                'optional parameters, brief only, undocumented, absent) x 3 XML trees (complete, no index, no folder) plus class '
+                'method; literal decoded by an independent decoder and by g++); 19 member shapes (overloads by names / by order, '
+                'optional parameters with an overload of the arity in between, a struct compound with same-spelled overloads, brief only, undocumented, absent) x 3 XML trees (complete, no index, no folder) plus class '
                 'not indexed / class file missing / ill-formed; one wrapper used twice' % (3 if ctx.thorough else 2, len(CHARS)),
         'samples': [repr(t) for t in (tx[5], tx[100], tx[-1])],
         'exhaustive': True,
